@@ -6,6 +6,7 @@
 #define HX_MAIN
 #include <list>
 #include <optional>
+#include <string>
 #include "common.h"
 #include "gmlc/libguarded/rcu_guarded.hpp"
 #include "gmlc/libguarded/rcu_list.hpp"
@@ -117,7 +118,18 @@ struct CountingAlloc {
     }
 };
 
-#if defined(MODE_C13)
+#if defined(MODE_C13) && defined(ELEM_STRING)
+// std::string elements with heap-allocated contents: destroying a never-constructed or already
+// destroyed string frees a wild / freed pointer, which the arena reports
+struct StrElem {
+    std::string s;
+    int v;
+    int chk;
+    explicit StrElem(int x = 0): s("element_with_a_heap_allocated_string_" + std::to_string(x)), v(x), chk(~x) {}
+};
+using Elem = StrElem;
+using List = gmlc::libguarded::rcu_list<Elem, std::mutex, CountingAlloc<Elem>>;
+#elif defined(MODE_C13)
 using Elem = Tracked;
 using List = gmlc::libguarded::rcu_list<Elem, std::mutex, CountingAlloc<Elem>>;
 #else
@@ -605,8 +617,10 @@ void body(const Prog& p)
     // everything the list allocated is gone, exactly once (arena accounting is type independent)
     MC_CHECK(live_blocks() == base_blocks, "leak", "%zu allocations of the list were never freed",
              live_blocks() - base_blocks);
-#ifdef MODE_C13
+#if defined(MODE_C13) && !defined(ELEM_STRING)
     MC_CHECK(g_instances == 0, "element-leak", "%d elements were never destroyed", g_instances);
+#endif
+#ifdef MODE_C13
     for (int i = 0; i < g_narec; i++)
         MC_CHECK(!g_arec[i].allocated && !g_arec[i].constructed, "alloc-leak", "an allocation was never released");
     MC_CHECK(g_alloc_calls == g_dealloc_calls, "alloc-count", "%d allocate vs %d deallocate calls", g_alloc_calls,
@@ -816,6 +830,8 @@ int main(int argc, char** argv)
 {
 #if defined(MODE_C12)
     return run_main(argc, argv, "C12", "C12", make_items);
+#elif defined(MODE_C13) && defined(ELEM_STRING)
+    return run_main(argc, argv, "C13", "C13_string", make_items);
 #elif defined(MODE_C13)
     return run_main(argc, argv, "C13", "C13", make_items);
 #elif defined(MODE_C14)
